@@ -25,6 +25,12 @@ func init() {
 		Real: []string{"pkg/trait/lightpb MemoryDevice (tween goroutine, expected-value chain)", "pkg/resource Value"}, Stub: []string{"client tasks", "fake clock"}})
 }
 
+func init() {
+	register(&Scenario{Name: "alias-tween", Prop: "C07", Doc: "the lin-tween workload judged for isolation: the callers change (reuse) their request messages once their calls have returned, while the fades those calls started are still running; the stored fade progress never gets ahead of what the requests as sent allow",
+		Run:  linTweenRun,
+		Real: []string{"pkg/trait/lightpb MemoryDevice (tween goroutine)", "pkg/resource Value"}, Stub: []string{"client tasks", "fake clock"}})
+}
+
 func linTweenRun(w *World) {
 	t := w.Tape
 	dev := lightpb.NewMemoryDevice()
@@ -34,7 +40,9 @@ func linTweenRun(w *World) {
 		resp  *traits.Brightness
 		err   error
 		after time.Duration
+		start time.Time
 	}
+	reuse := t.Flag(1, 2)
 	nc := 1 + t.Choose(2)
 	clients := make([][]*call, nc)
 	for i := 0; i < nc; i++ {
@@ -62,8 +70,18 @@ func linTweenRun(w *World) {
 					task.Sleep(c.after)
 				}
 				task.Yield("op")
-				c.resp, c.err = dev.UpdateBrightness(context.Background(), proto.Clone(c.req).(*traits.UpdateBrightnessRequest))
+				sent := proto.Clone(c.req).(*traits.UpdateBrightnessRequest)
+				c.start = time.Now()
+				c.resp, c.err = dev.UpdateBrightness(context.Background(), sent)
 				task.Note("%v -> %v %v", c.req, c.resp, c.err)
+				if reuse {
+					// the request is the caller's again (say it is reused for the next, much quicker, fade elsewhere):
+					// nothing the device still does for this call may depend on it
+					sent.Brightness.LevelPercent = 55
+					if sent.Brightness.BrightnessTween != nil {
+						sent.Brightness.BrightnessTween.TotalDuration = durationpb.New(time.Millisecond)
+					}
+				}
 			}
 		})
 	}
@@ -79,6 +97,24 @@ func linTweenRun(w *World) {
 	for i := 0; i < 30; i++ {
 		w.Advance(100 * time.Millisecond) // (a fade that is a task of its own is released tick by tick)
 		w.Run()
+		// a fade's progress is a function of the time since it was asked for and of the duration it was asked with:
+		// whichever fade wrote the stored progress, it cannot be ahead of the furthest any of them can be by now
+		if g, err := dev.GetBrightness(context.Background(), &traits.GetBrightnessRequest{Name: "l"}); err == nil && g.GetBrightnessTween().GetProgress() > 0 {
+			bound := float64(0)
+			for _, cs := range clients {
+				for _, c := range cs {
+					if d := c.req.Brightness.GetBrightnessTween().GetTotalDuration().AsDuration(); c.err == nil && d > 0 {
+						if b := 100 * float64(time.Since(c.start)) / float64(d); b > bound {
+							bound = b
+						}
+					}
+				}
+			}
+			if p := float64(g.BrightnessTween.Progress); p > bound+0.01 && p > 0 {
+				w.Violate("caller-mutation-visible", fmt.Sprintf("the stored fade progress is %v%%, but no fade that was asked for can be further than %.3f%% by now; the callers changed their request messages after their calls had returned (reuse=%v)", p, bound, reuse), nil)
+				return
+			}
+		}
 	}
 	final, err := dev.GetBrightness(context.Background(), &traits.GetBrightnessRequest{Name: "l"})
 	if err != nil {
